@@ -44,6 +44,7 @@ def catalogue():
         # with a single neighbour, mutually nearest rows have exactly tied scores (index tie-breaking)
         Spec("Random", lambda m, dt, v=None: Random(), random=True),
         Spec("TrimmedMean", lambda m, dt, v=None: TrimmedMean(trim_number=1), weighted=False, gramian=False, min_rows=3),
+        Spec("TrimmedMean0", lambda m, dt, v=None: TrimmedMean(trim_number=0), weighted=False, gramian=False, min_rows=1),
         Spec("GradDrop", lambda m, dt, v=None: GradDrop(leak=None if v is None else vec(v, dt)), weighted=False, gramian=False,
              random=True, pref="leak"),
     ]
